@@ -263,6 +263,16 @@ class Gen:
                 self.features.add("random-init")
             else:
                 init.append(H.assign(x, H.ex(H.num(r.choice(SMALL)))))
+        if init and self.coin(0.12):
+            # a second initial assignment to an already initialised variable (the last one counts)
+            s0 = r.choice(init)
+            if s0[0] == "assign" and s0[2][0] == "expr":
+                v0 = s0[1]
+                if v0 in self.fin:
+                    init.append(H.assign(v0, H.ex(H.num(r.choice(self.fin[v0])))))
+                else:
+                    init.append(H.assign(v0, H.ex(H.add(H.var(v0), H.num(r.choice(SMALL[1:]))))))
+                self.features.add("double-init")
         for d in dnames:
             # draws are (re)assigned in every iteration before they are used; give them an initial value
             init.append(H.assign(d, H.ex(H.num(0))))
